@@ -233,6 +233,19 @@ class Controller:
           continue
         self.problems.append('deadlock: ' + ', '.join('%s in %s' % (t.name, t.blocked[2] if t.blocked else '?') for t in live))
         return 'deadlock'
+      # A *timed* Lock.acquire may give up at any moment: how long the other threads' steps take is arbitrary (a task slice may last longer than
+      # any fixed timeout), so its expiry is a scheduling choice of its own - explored like a preemption and charged to the same budget.
+      # (Timed waits of the idle loops - select, Event.wait - are different: an early expiry there is a spurious wake-up that only re-polls.)
+      expirable = [t for t in live if t.blocked is not None and t.blocked[1] is not None and t.blocked[2].endswith('Lock.acquire') and not t.can_run()]
+      if expirable and self.preemptions < self.bound:
+        for t in expirable:
+          self.nchoice += 1
+          if bool(ctx.bool('expire%d_%s' % (self.nchoice, t.name))):
+            self.preemptions += 1
+            t.timed_out = True
+            t.blocked = (lambda: True, t.blocked[1], t.blocked[2])
+            enabled = [x for x in live if x.can_run()]
+            break
       if cur is not None and cur in enabled:
         nxt = cur
         others = [t for t in enabled if t is not cur]
